@@ -18,7 +18,7 @@ import operator
 import z3
 from .common import *  # noqa
 from .externals import TOKENIZER
-from .rowspec import row_facts, header_facts, attrs_in, cidx
+from .rowspec import row_facts, header_facts, attrs_in, cidx, header_term
 from .theorems import arithmetic_axioms
 from .token_ordering import inj_image, ORD, table_ok
 from pyvc import natives as N
@@ -262,9 +262,12 @@ def _mk(M, op, l_none, r_none):
         sc = c['out_sim_score']
         for with_score in (True, False):
             for (lab, f) in header_facts(cols, c['l_key_attr'], c['r_key_attr'], lo, ro,
-                                         c['l_out_prefix'], c['r_out_prefix'], False, with_score):
+                                         c['l_out_prefix'], c['r_out_prefix'], False, with_score,
+                                         assumed=not c.proving):
                 fs.append((lab + ('-with-score' if with_score else '-no-score'),
                            z3.Implies(sc if with_score else z3.Not(sc), f)))
+        fs.append(('header-term', cols.t == header_term(c['l_key_attr'], c['r_key_attr'], lo, ro,
+                                                        c['l_out_prefix'], c['r_out_prefix'], sc)))
         return fs
 
     SJ.ensures = ensures
